@@ -71,6 +71,47 @@ def one (song : Song) (root : List Event) (rootId : Nat) (pd : Int → Bool) (n 
     | none => match future song root pd 24 sb "" with | .ok r => r | .error _ => ""
   s!"#{n} skip={a} play={b} fut={if fa == fb then "same:" else "DIFF:"}{fa}"
 
+/-- a seek on a player that is not fresh (`seekm`): after `m+1` play ticks, `skip_ticks(n)` against `n` more
+play ticks (`C12_seek_eq_play_after_play`); the label is the total `m+n` -/
+def oneFrom (song : Song) (root : List Event) (rootId : Nat) (pd : Int → Bool) (m n : Nat) : String :=
+  let s0 := playN song root pd (m + 1) initPS
+  match s0.err with
+  | some e => s!"#{m + n} skip=err:{errMsg e} play=err:{errMsg e} fut=same:"
+  | none =>
+  let (sa, wa) := skipTicksO song root pd n s0
+  let a := match sa.err with
+    | some e => "err:" ++ errMsg e
+    | none =>
+      match future song root pd 24 sa "" with
+      | .error e => "err:" ++ errMsg e
+      | .ok _ => dump rootId sa ++ "/w=" ++ (let r := recAdd "" wa; if r.isEmpty then "-" else r)
+  let fa := match sa.err with
+    | some _ => ""
+    | none => match future song root pd 24 sa "" with | .ok r => r | .error _ => ""
+  let sb := playN song root pd n s0
+  let b := match sb.err with
+    | some e => "err:" ++ errMsg e
+    | none =>
+      match future song root pd 24 sb "" with
+      | .error e => "err:" ++ errMsg e
+      | .ok _ => dump rootId sb
+  let fb := match sb.err with
+    | some _ => ""
+    | none => match future song root pd 24 sb "" with | .ok r => r | .error _ => ""
+  s!"#{m + n} skip={a} play={b} fut={if fa == fb then "same:" else "DIFF:"}{fa}"
+
+def modelM (arg : String) : String :=
+  match parseSong (words arg) with
+  | none => "bad-request"
+  | some (song, rest) =>
+    match (rest[0]?).bind String.toNat?, (rest[1]?).bind String.toNat?, song.track? (((rest[0]?).bind String.toNat?).getD 0) with
+    | some rootId, some m, some root =>
+      let ns := ((rest[2]?).map (fun s => (s.splitOn ",").filterMap String.toNat?)).getD []
+      let pids : List Int := (rest.filter (·.startsWith "P:")).flatMap fun t =>
+        ((t.drop 2).toString.splitOn ",").filterMap parseInt?
+      " ".intercalate (ns.map (oneFrom song root rootId (fun p => pids.contains p) m))
+    | _, _, _ => "bad-request"
+
 def parseReq (arg : String) : Option (Song × Nat × List Event × List Nat × (Int → Bool)) := do
   let (song, rest) ← parseSong (words arg)
   let rootId ← (rest[0]?).bind String.toNat?
@@ -111,5 +152,6 @@ def judge (_arg impl : String) : String :=
   | [] => "ok"
   | x :: _ => "fail " ++ x
 
-def handlers : List Driver.Handler := [{ cmd := "seek", model := model, judge := judge }]
+def handlers : List Driver.Handler := [{ cmd := "seek", model := model, judge := judge },
+  { cmd := "seekm", model := modelM, judge := judge }]
 end Driver.SeekD
